@@ -30,6 +30,13 @@ func (partyIDs IDSlice) Contains(ids ...ID) bool {
 // Valid returns true if the IDSlice is sorted and does not contain any duplicates.
 func (partyIDs IDSlice) Valid() bool {
 	n := len(partyIDs)
+	// the empty identifier is reserved ("everyone" as a message recipient) and maps to the
+	// scalar 0, at which no share may ever be evaluated
+	for _, id := range partyIDs {
+		if id == "" {
+			return false
+		}
+	}
 	for i := 1; i < n; i++ {
 		if partyIDs[i-1] >= partyIDs[i] {
 			return false
